@@ -12,7 +12,7 @@ from vf import pool_checks
 PROP = "C04"
 LEVEL = "fault_enumeration"
 RULE = ("base cases: C03-style call histories (1-4 calls, FunctorPool and FactoryFunctorPool with quota 1-5), "
-        "until_all_ready() before the first call, between calls and polled from a side thread while calls run and workers are being replaced; slow begin() in every second worker and slow end() in workers that processed items (so that an early until_all_ready or an unjoined replaced worker is observable); fault positions enumerated over the base index: "
+        "quotas given as int or as finite float, pool contexts left normally or through an exception raised by the body after its calls, until_all_ready() before the first call, between calls and polled from a side thread while calls run and workers are being replaced; slow begin() in every second worker and slow end() in workers that processed items (so that an early until_all_ready or an unjoined replaced worker is observable); fault positions enumerated over the base index: "
         "none / begin() of worker k raising (k = 0..workers-1 and a replacement worker) / functor raising at the "
         "first, a middle and the last item of a call. Fault-free cases also get the full delay sweep (one 120 ms delay "
         "per executed statement and occurrence, random combinations). Oracle over the log: per worker exactly one "
@@ -45,6 +45,10 @@ def gen_base(rng, tier, index):
         case["functor_quota"] = max(1, -(-total // case["workers"])) + 1
         for c in case["calls"]:
             c["durations"] = {"mode": "hash", "t": 0.02}
+    if index % 4 == 1:
+        case["body_raises"] = True          # the with-block is left through an exception
+    if case.get("quota") and index % 3 == 1:
+        case["float_quota"] = True          # max_chunks_per_worker given as 3.0 instead of 3
     case["end_delay"] = rng.choice([0, 0.05, 0.15, 0.3])       # slow end(): an unjoined (replaced) worker is still in it
     case["begin_delay"] = rng.choice([0, 0, 0.05, 0.2])        # slow begin() in every second worker
     fault_kind = index % 5      # 0,1: none   2: begin   3: functor   4: none + ready between calls
